@@ -566,7 +566,16 @@ std::ostream& type_t::print_declaration(std::ostream& os) const
         }
     } else if (array) {
         get(0).print_declaration(os) << '[';
-        get_array_size().get_range().second.get(0).print(os) << ']';
+        // "T a[N]" is stored as the range int[0,N-1]; a dimension given as a type ("T a[int[0,3]]",
+        // "T a[id_t]") is stored as that type, whose upper bound need not be of the form N-1
+        const type_t size = get_array_size();
+        const bool fromSize = size.is(RANGE) && size.get_range().second.get_kind() == MINUS &&
+                              size.get_range().second.get_size() == 2;
+        if (fromSize)
+            size.get_range().second.get(0).print(os);
+        else
+            size.print_declaration(os);
+        os << ']';
     } else if (label) {
         os << get_label(0);
     } else if (typeDef) {
